@@ -212,10 +212,14 @@ impl Sender {
             config.fdt_publish_mode,
         );
 
+        // 0 would never open a source block (nothing but the empty-object packet is sent, debug_assert in
+        // BlockEncoder::read): treated as 1, like multiplex_files = 0 below
+        let interleave_blocks = std::cmp::max(1, config.interleave_blocks as usize);
+
         let fdt_session = SenderSession::new(
             0,
             tsi,
-            config.interleave_blocks as usize,
+            interleave_blocks,
             true,
             config.profile,
             endpoint.clone(),
@@ -234,7 +238,7 @@ impl Sender {
                     SenderSession::new(
                         *priority,
                         tsi,
-                        config.interleave_blocks as usize,
+                        interleave_blocks,
                         false,
                         config.profile,
                         endpoint.clone(),
